@@ -66,7 +66,7 @@ theorem RelInv.lookup_total {w : World} (hR : RelInv w) {mask : Mask}
     (hmreg : ∀ (c : Nat), mask.get c = true → c < w.kinds.length) {L : List RelID}
     (hcolsM : ∀ (r : RelID), r ∈ L → mask.get r.comp = true)
     (hnamedM : ∀ (c : Comp), mask.get c = true → w.isRelComp c = true → c ∈ L.map (·.comp))
-    (hvalid0 : RelsValid w L) :
+    (hndL : (L.map (·.comp)).Nodup) (hvalid0 : RelsValid w L) :
     ∃ (a : Nat) (w1 : World), World.findOrCreateArch mask w = .ok a w1 ∧ w1.tables = w.tables ∧
       ((∃ (t : Nat), getTable a L w1 = .ok (some t) w1) ∨
        (getTable a L w1 = .ok none w1 ∧ ∃ (t : Nat) (w' : World), createTable a L w1 = .ok t w')) := by
@@ -151,12 +151,13 @@ theorem RelInv.lookup_total {w : World} (hR : RelInv w) {mask : Mask}
         exact List.isEmpty_iff.1 he
       · cases hres
     obtain ⟨t, w', hct, _⟩ := hmid.createTable_total aux1.cacheRels halt hnr hnum
-      (fun r hr => Archetype.colIdx_isSome_of_mem_comps (hcols r hr)) hvalid
+      (fun r hr => Archetype.colIdx_isSome_of_mem_comps (hcols r hr)) hndL hvalid
     exact Or.inr ⟨hres, t, w', hct⟩
 
 /-- **totality of the table lookup of `add` / `newEntity`**: `add` distinct, registered and absent
     from `startMask` (the mask of the old table's archetype); `rels` names every relation
-    component among `add` (each a relation component of `add`), with zero or alive targets -/
+    component among `add` (each a relation component of `add`, none twice), with zero or alive
+    targets -/
 theorem RelInv.findOrCreateTableAdd_total {w : World} (hR : RelInv w)
     (hk256 : w.kinds.length ≤ 256) {oldT : Nat} {startMask : Mask} {add : List Comp}
     {rels : List RelID}
@@ -164,7 +165,7 @@ theorem RelInv.findOrCreateTableAdd_total {w : World} (hR : RelInv w)
     (hold : oldT < w.tables.length) (hofree : (w.tbl oldT).isFree = false)
     (homask : (w.arch (w.tbl oldT).arch).mask = startMask)
     (hnd : add.Nodup) (hnew : ∀ (c : Comp), c ∈ add → startMask.get c = false)
-    (hin : ∀ (r : RelID), r ∈ rels → r.comp ∈ add)
+    (hrnd : (rels.map (·.comp)).Nodup) (hin : ∀ (r : RelID), r ∈ rels → r.comp ∈ add)
     (hrc : ∀ (r : RelID), r ∈ rels → w.isRelComp r.comp = true)
     (hall : ∀ (c : Comp), c ∈ add → w.isRelComp c = true → c ∈ rels.map (·.comp))
     (hval : ∀ (r : RelID), r ∈ rels → r.target.isZero = true ∨ w.alive r.target = true) :
@@ -223,6 +224,15 @@ theorem RelInv.findOrCreateTableAdd_total {w : World} (hR : RelInv w)
         exact List.mem_map.2 ⟨_, hOex.complete j c hj hjr, rfl⟩
       · exact Or.inr (hall c k hrel))
     (by
+      rw [List.map_append, List.nodup_append]
+      refine ⟨hOex.nodup, hrnd, ?_⟩
+      intro c hc1 c' hc2 heq
+      obtain ⟨r1, hr1, rfl⟩ := List.mem_map.1 hc1
+      obtain ⟨r2, hr2, rfl⟩ := List.mem_map.1 hc2
+      have h1 := holdCol r1 hr1
+      have h2 := hnew r2.comp (hin r2 hr2)
+      rw [← heq, h1] at h2; cases h2)
+    (by
       intro r hr
       rcases List.mem_append.1 hr with k | k
       · obtain ⟨i, h1, h2, h3⟩ := hOex.sound r k
@@ -246,7 +256,7 @@ theorem opNewEntity_rel_total (run : ProbeRunner) (p : Path) {w : World} {fl : L
     (h : TInv w fl) (hl : w.isLocked = false) (hno : ∀ (evt : Nat), w.obs.hasObservers evt = false)
     {ids : List Comp} {vals : List (Comp × Val)} {rels : List RelID}
     (hnd : ids.Nodup) (hreg : ∀ (c : Comp), c ∈ ids → c < w.kinds.length)
-    (hin : ∀ (r : RelID), r ∈ rels → r.comp ∈ ids)
+    (hrnd : (rels.map (·.comp)).Nodup) (hin : ∀ (r : RelID), r ∈ rels → r.comp ∈ ids)
     (hrc : ∀ (r : RelID), r ∈ rels → w.isRelComp r.comp = true)
     (hall : ∀ (c : Comp), c ∈ ids → w.isRelComp c = true → c ∈ rels.map (·.comp))
     (hval : ∀ (r : RelID), r ∈ rels → r.target.isZero = true ∨ w.alive r.target = true) :
@@ -262,7 +272,7 @@ theorem opNewEntity_rel_total (run : ProbeRunner) (p : Path) {w : World} {fl : L
   have hS := h.rel.sinv
   obtain ⟨t, a, w1, hf⟩ := h.rel.findOrCreateTableAdd_total hk256 (oldT := 0)
     (startMask := Mask.empty) hreg hS.root.1 hS.toSInvMid.root_notFree
-    (by rw [hS.root.2.1]; exact hS.root.2.2) hnd (fun c _ => by simp) hin hrc hall hval
+    (by rw [hS.root.2.1]; exact hS.root.2.2) hnd (fun c _ => by simp) hrnd hin hrc hall hval
   have hu := findOrCreateTableAdd_untouched hf
   have hno1 : ∀ (evt : Nat), w1.obs.hasObservers evt = false := by
     intro evt; rw [hu.obs]; exact hno evt
@@ -276,7 +286,7 @@ theorem opAdd_rel_total (run : ProbeRunner) (p : Path) {w : World} {fl : List Na
     {vals : List (Comp × Val)} {rels : List RelID}
     (hne : ids ≠ []) (hnd : ids.Nodup) (hreg : ∀ (c : Comp), c ∈ ids → c < w.kinds.length)
     (hnew : ∀ (c : Comp), c ∈ ids → (w.maskOf e).get c = false)
-    (hin : ∀ (r : RelID), r ∈ rels → r.comp ∈ ids)
+    (hrnd : (rels.map (·.comp)).Nodup) (hin : ∀ (r : RelID), r ∈ rels → r.comp ∈ ids)
     (hrc : ∀ (r : RelID), r ∈ rels → w.isRelComp r.comp = true)
     (hall : ∀ (c : Comp), c ∈ ids → w.isRelComp c = true → c ∈ rels.map (·.comp))
     (hval : ∀ (r : RelID), r ∈ rels → r.target.isZero = true ∨ w.alive r.target = true) :
@@ -304,7 +314,7 @@ theorem opAdd_rel_total (run : ProbeRunner) (p : Path) {w : World} {fl : List Na
   have hm : w.maskOf e = (w.arch (w.tbl oldT).arch).mask := by simp only [maskOf, hix]
   obtain ⟨t, a, w1, hf⟩ := h.rel.findOrCreateTableAdd_total hk256 (oldT := oldT)
     (startMask := (w.arch (w.tbl oldT).arch).mask) hreg hlt hTf rfl hnd
-    (fun c hc => by rw [← hm]; exact hnew c hc) hin hrc hall hval
+    (fun c hc => by rw [← hm]; exact hnew c hc) hrnd hin hrc hall hval
   have hu := findOrCreateTableAdd_untouched hf
   have hcore := addCore_rel_eq e ids rels w hl ha hemp hix hf
   have hno3 : ∀ (evt : Nat), (registerW (addMove w1 e oldT row t
@@ -319,7 +329,7 @@ theorem opAdd_rel_total (run : ProbeRunner) (p : Path) {w : World} {fl : List Na
 theorem opSetRelations_total (run : ProbeRunner) (p : Path) {w : World} {fl : List Nat}
     (h : TInv w fl) (hl : w.isLocked = false) (hno : ∀ (evt : Nat), w.obs.hasObservers evt = false)
     {e : Ent} (h2 : 2 ≤ e.id) (hnf : e.id ∉ fl) (ha : w.alive e = true) {rels : List RelID}
-    (hne : rels.isEmpty = false)
+    (hne : rels.isEmpty = false) (hnd : (rels.map (·.comp)).Nodup)
     (hhas : ∀ (r : RelID), r ∈ rels → (targetOf w e.id r.comp).isSome = true)
     (hval : ∀ (r : RelID), r ∈ rels → r.target.isZero = true ∨ w.alive r.target = true)
     (hreg : ∀ (r : RelID), r ∈ rels → w.isRelComp r.comp = true ∧ r.comp < 256) :
@@ -331,7 +341,7 @@ theorem opSetRelations_total (run : ProbeRunner) (p : Path) {w : World} {fl : Li
     rw [Mask.get_ofList]
     simp only [(hreg r hr).2, decide_true, Bool.true_and, decide_eq_true_eq]
     exact List.mem_map.mpr ⟨r, hr, rfl⟩
-  obtain ⟨w', hok⟩ := setRelationsCore_total run h hl hno h2 hnf ha hne hhas hval
+  obtain ⟨w', hok⟩ := setRelationsCore_total run h hl hno h2 hnf ha hne hnd hhas hval
   exact ⟨w', by simp only [opSetRelations, bind, M.bind, hpre, hok]⟩
 
 /-! ## the access path does not matter for a valid call -/
@@ -342,7 +352,7 @@ theorem opNewEntity_rel_path_indep (run : ProbeRunner) (p q : Path) {w : World} 
     (h : TInv w fl) (hl : w.isLocked = false) (hno : ∀ (evt : Nat), w.obs.hasObservers evt = false)
     {ids : List Comp} {vals : List (Comp × Val)} {rels : List RelID}
     (hnd : ids.Nodup) (hreg : ∀ (c : Comp), c ∈ ids → c < w.kinds.length)
-    (hin : ∀ (r : RelID), r ∈ rels → r.comp ∈ ids)
+    (hrnd : (rels.map (·.comp)).Nodup) (hin : ∀ (r : RelID), r ∈ rels → r.comp ∈ ids)
     (hrc : ∀ (r : RelID), r ∈ rels → w.isRelComp r.comp = true)
     (hall : ∀ (c : Comp), c ∈ ids → w.isRelComp c = true → c ∈ rels.map (·.comp))
     (hval : ∀ (r : RelID), r ∈ rels → r.target.isZero = true ∨ w.alive r.target = true) :
@@ -359,7 +369,7 @@ theorem opNewEntity_rel_path_indep (run : ProbeRunner) (p q : Path) {w : World} 
   have hS := h.rel.sinv
   obtain ⟨t, a, w1, hf⟩ := h.rel.findOrCreateTableAdd_total hk256 (oldT := 0)
     (startMask := Mask.empty) hreg hS.root.1 hS.toSInvMid.root_notFree
-    (by rw [hS.root.2.1]; exact hS.root.2.2) hnd (fun c _ => by simp) hin hrc hall hval
+    (by rw [hS.root.2.1]; exact hS.root.2.2) hnd (fun c _ => by simp) hrnd hin hrc hall hval
   have hu := findOrCreateTableAdd_untouched hf
   have hno1 : ∀ (evt : Nat), w1.obs.hasObservers evt = false := by
     intro evt; rw [hu.obs]; exact hno evt
@@ -373,7 +383,7 @@ theorem opAdd_rel_path_indep (run : ProbeRunner) (p q : Path) {w : World} {fl : 
     {vals : List (Comp × Val)} {rels : List RelID}
     (hne : ids ≠ []) (hnd : ids.Nodup) (hreg : ∀ (c : Comp), c ∈ ids → c < w.kinds.length)
     (hnew : ∀ (c : Comp), c ∈ ids → (w.maskOf e).get c = false)
-    (hin : ∀ (r : RelID), r ∈ rels → r.comp ∈ ids)
+    (hrnd : (rels.map (·.comp)).Nodup) (hin : ∀ (r : RelID), r ∈ rels → r.comp ∈ ids)
     (hrc : ∀ (r : RelID), r ∈ rels → w.isRelComp r.comp = true)
     (hall : ∀ (c : Comp), c ∈ ids → w.isRelComp c = true → c ∈ rels.map (·.comp))
     (hval : ∀ (r : RelID), r ∈ rels → r.target.isZero = true ∨ w.alive r.target = true) :
@@ -402,7 +412,7 @@ theorem opAdd_rel_path_indep (run : ProbeRunner) (p q : Path) {w : World} {fl : 
   have hm : w.maskOf e = (w.arch (w.tbl oldT).arch).mask := by simp only [maskOf, hix]
   obtain ⟨t, a, w1, hf⟩ := h.rel.findOrCreateTableAdd_total hk256 (oldT := oldT)
     (startMask := (w.arch (w.tbl oldT).arch).mask) hreg hlt hTf rfl hnd
-    (fun c hc => by rw [← hm]; exact hnew c hc) hin hrc hall hval
+    (fun c hc => by rw [← hm]; exact hnew c hc) hrnd hin hrc hall hval
   have hu := findOrCreateTableAdd_untouched hf
   have hcore := addCore_rel_eq e ids rels w hl ha hemp hix hf
   have hno3 : ∀ (evt : Nat), (registerW (addMove w1 e oldT row t
